@@ -127,7 +127,8 @@ def translate():
         for name, script, outname, ns in (('glue', 'glue2lean.py', 'VecGlue.lean', 'AmcVerif.Gen.Glue'),
                                           ('helpers', 'helpers2lean.py', 'VecHelpers.lean', 'AmcVerif.Gen.Helpers'),
                                           ('smallset', 'smallset2lean.py', 'SmallSetGen.lean', 'AmcVerif.Gen.SmallSet'),
-                                          ('memory', 'memory2lean.py', 'MemAlgoGen.lean', 'AmcVerif.Gen.MemAlgo')):
+                                          ('memory', 'memory2lean.py', 'MemAlgoGen.lean', 'AmcVerif.Gen.MemAlgo'),
+                                          ('traits', 'traits2lean.py', 'TraitsGen.lean', 'AmcVerif.Gen.Traits')):
             gout = os.path.join(LEAN, 'AmcVerif', 'Gen', outname)
             stamp = os.path.join(BUILD, name + '.stamp')
             deps = [os.path.join(ROOT, 'translator', script), os.path.join(ROOT, 'translator', 'flatset2lean.py'),
